@@ -307,6 +307,12 @@ func Gen(t *simkit.Tape, sched bool) *Scenario {
 			order[i], order[j] = order[j], order[i]
 		}
 		s.Args = order
+		if len(order) > 0 && t.Bool(1, 8) {
+			// the same input named twice: two blocks, each complete
+			pos := t.Draw(len(s.Args) + 1)
+			dup := order[t.Draw(len(order))]
+			s.Args = append(s.Args[:pos:pos], append([]string{dup}, s.Args[pos:]...)...)
+		}
 		if len(dirs) > 1 && t.Bool(1, 2) {
 			s.Args = append(s.Args, dirs[1])
 			s.R = t.Bool(1, 2)
